@@ -2,7 +2,8 @@
   Helper lemmas for C14 (binomial deduction, `BOp.deduce` / `BOp.deduceK`, src/bi.rs:259-346).
   * rational closed forms (`mixq`, `pyxq`, `rII`, `rIII`, `Kq`) and their algebra;
   * the lift of `deduceK` on finite inputs of the open domain `Dom14`, one lemma per branch of the Rust
-    `match` (this is where every divisor is shown to be non-zero);
+    `match` (this is where every divisor is shown to be non-zero), the tie arm `_ if b0 == b1 || d0 == d1`
+    of repair 4d5bbb1 included (`deduceK_Tie`; `Kq_tie`: the closed form `Kq` is 0 at a tie);
   * acceptance of the result by the checked constructor.
   No property statements here.
 -/
@@ -214,6 +215,25 @@ theorem case_split (b0 d0 b1 d1 : ℚ) :
   · exact Or.inr (Or.inr ⟨not_lt.mp hb, hd⟩)
   · exact Or.inl ⟨fun h => absurd h hb, fun h => absurd h hd⟩
 
+/-- at a tie `b0 = b1` or `d0 = d1` the closed form is 0: in Case I by definition, in Case II (`d0 = d1`) and in
+    Case III (`b0 = b1`) one entry of the `min` is 0 and the other is non-negative.  (This is why the tie arm of
+    repair 4d5bbb1 does not change the exact-arithmetic result.) -/
+theorem Kq_tie (ha0 : 0 ≤ a) (hy0 : 0 ≤ ay) (hy1 : ay ≤ 1) (ht : b0 = b1 ∨ d0 = d1) :
+    Kq u a b0 d0 b1 d1 ay = 0 := by
+  have h1y : 0 ≤ 1 - ay := sub_nonneg.mpr hy1
+  rcases case_split b0 d0 b1 d1 with hI | ⟨hb, hd⟩ | ⟨hb, hd⟩
+  · exact Kq_I hI
+  · rcases ht with e | e
+    · exact absurd e hb.ne'
+    · subst e
+      rw [Kq_II hb (le_refl _), sub_self, mul_zero, zero_div, min_eq_right, mul_zero]
+      exact div_nonneg (mul_nonneg ha0 (sub_nonneg.mpr hb.le)) hy0
+  · rcases ht with e | e
+    · subst e
+      rw [Kq_III (le_refl _) hd, sub_self, mul_zero, zero_div, min_eq_left, mul_zero]
+      exact div_nonneg (mul_nonneg ha0 (sub_nonneg.mpr hd.le)) h1y
+    · exact absurd e hd.ne'
+
 /-- the belief and disbelief of the result are non-negative (they dominate a convex combination of
     the conditionals' components) -/
 theorem res_nonneg (hx : BWF b d u a) (h0 : SWF3 b0 d0 u0) (h1 : SWF3 b1 d1 u1)
@@ -271,7 +291,7 @@ theorem BOp.tryNew_ok_inv {α : Type} [Scalar α] {b d u a : α} {r : BOp α}
 /-- unfold `deduceK` on finite inputs down to the comparisons -/
 local macro "unfold_deduceK" : tactic => `(tactic|
   (unfold BOp.deduceK BOp.projection Scalar.gt
-   simp only [XQ.one_def, XQ.sub_fin, XQ.mul_fin, XQ.add_fin, XQ.lt_fin, XQ.zero_def]))
+   simp only [XQ.one_def, XQ.sub_fin, XQ.mul_fin, XQ.add_fin, XQ.lt_fin, XQ.eq_fin, XQ.zero_def]))
 
 theorem deduceK_I (hI : b1 < b0 ↔ d1 < d0) :
     BOp.deduceK (liftB (f := f) b d u a) (liftS b0 d0 u0) (liftS b1 d1 u1) (XQ.fin ay)
@@ -281,6 +301,25 @@ theorem deduceK_I (hI : b1 < b0 ↔ d1 < d0) :
   have e : (decide (b1 < b0) == decide (d1 < d0)) = true := by
     rw [beq_iff_eq, decide_eq_decide]; exact hI
   rw [if_pos e]
+
+/-- the tie arm (repair 4d5bbb1): outside Case I, `b0 = b1` or `d0 = d1` gives `k = 0` with tag `.Tie` -- no
+    comparison of `pyx` with `r`, no division; every finite input -/
+theorem deduceK_Tie0 (hI : ¬(b1 < b0 ↔ d1 < d0)) (ht : b0 = b1 ∨ d0 = d1) :
+    BOp.deduceK (liftB (f := f) b d u a) (liftS b0 d0 u0) (liftS b1 d1 u1) (XQ.fin ay)
+      = (XQ.fin 0, .Tie) := by
+  unfold_deduceK
+  have e : ¬ (decide (b1 < b0) == decide (d1 < d0)) = true := by
+    rw [beq_iff_eq, decide_eq_decide]; exact hI
+  have e2 : (decide (b0 = b1) || decide (d0 = d1)) = true := by
+    rw [Bool.or_eq_true, decide_eq_true_eq, decide_eq_true_eq]; exact ht
+  rw [if_neg e, if_pos e2]
+
+/-- … which is the closed form `Kq` (closed domain: `0 ≤ a`, `0 ≤ ay ≤ 1`) -/
+theorem deduceK_Tie (ha0 : 0 ≤ a) (hy0 : 0 ≤ ay) (hy1 : ay ≤ 1) (hI : ¬(b1 < b0 ↔ d1 < d0))
+    (ht : b0 = b1 ∨ d0 = d1) :
+    BOp.deduceK (liftB (f := f) b d u a) (liftS b0 d0 u0) (liftS b1 d1 u1) (XQ.fin ay)
+      = (XQ.fin (Kq u a b0 d0 b1 d1 ay), .Tie) := by
+  rw [Kq_tie ha0 hy0 hy1 ht, deduceK_Tie0 hI ht]
 
 section branches
 variable (h : Dom14 b d u a b0 d0 u0 b1 d1 u1 ay)
@@ -314,11 +353,13 @@ theorem deduceK_IIA1 (hb : b1 < b0) (hd : d0 ≤ d1) (hA : pyxq a b0 u0 b1 u1 ay
     BOp.deduceK (liftB (f := f) b d u a) (liftS b0 d0 u0) (liftS b1 d1 u1) (XQ.fin ay)
       = (XQ.fin (Kq u a b0 d0 b1 d1 ay), .IIA1) := by
   have hy0 := h.hy0; have hP0 := h.hP0
+  have hds : d0 < d1 := h.IIA_strict hb hA
   rw [Kq_IIA h.hy0 h.hy1 hb hd (by linarith [pyx_sub_rII (a := a) (ay := ay) h.c0.hs h.c1.hs])]
   unfold pyxq rII at hA
   unfold_deduceK
   simp only [decide_eq_true hb, decide_eq_false (not_lt.mpr hd), decide_eq_false (not_lt.mpr hA),
-    decide_eq_false (not_lt.mpr hP), if_true, XQ.lt_fin]
+    decide_eq_false (not_lt.mpr hP), decide_eq_false hb.ne', decide_eq_false hds.ne, Bool.or_self,
+    Bool.false_eq_true, if_false, if_true, XQ.lt_fin]
   rw [if_neg (by decide), XQ.div_fin _ _ (mul_ne_zero hP0.ne' hy0.ne')]
   have e := h.d_eq; subst e
   congr 2; field_simp; ring
@@ -328,70 +369,76 @@ theorem deduceK_IIA2 (hb : b1 < b0) (hd : d0 ≤ d1) (hA : pyxq a b0 u0 b1 u1 ay
     BOp.deduceK (liftB (f := f) b d u a) (liftS b0 d0 u0) (liftS b1 d1 u1) (XQ.fin ay)
       = (XQ.fin (Kq u a b0 d0 b1 d1 ay), .IIA2) := by
   have hy0 := h.hy0; have hP1 : 0 < 1 - (b + a * u) := sub_pos.mpr h.hP1
-  have hd' : 0 < d1 - d0 := sub_pos.mpr (h.IIA_strict hb hA)
+  have hds : d0 < d1 := h.IIA_strict hb hA
+  have hd' : 0 < d1 - d0 := sub_pos.mpr hds
   rw [Kq_IIA h.hy0 h.hy1 hb hd (by linarith [pyx_sub_rII (a := a) (ay := ay) h.c0.hs h.c1.hs])]
   unfold pyxq rII at hA
   unfold_deduceK
   simp only [decide_eq_true hb, decide_eq_false (not_lt.mpr hd), decide_eq_false (not_lt.mpr hA),
-    decide_eq_true hP, if_true, XQ.lt_fin]
+    decide_eq_true hP, decide_eq_false hb.ne', decide_eq_false hds.ne, Bool.or_self,
+    Bool.false_eq_true, if_false, if_true, XQ.lt_fin]
   rw [if_neg (by decide), XQ.div_fin _ _ (mul_ne_zero (mul_ne_zero hP1.ne' hy0.ne') hd'.ne')]
   have e := h.d_eq; subst e
   congr 2; field_simp; ring
 
-theorem deduceK_IIB1 (hb : b1 < b0) (hd : d0 ≤ d1) (hB : rII d0 b1 ay < pyxq a b0 u0 b1 u1 ay)
+theorem deduceK_IIB1 (hb : b1 < b0) (hd : d0 < d1) (hB : rII d0 b1 ay < pyxq a b0 u0 b1 u1 ay)
     (hP : b + a * u ≤ a) :
     BOp.deduceK (liftB (f := f) b d u a) (liftS b0 d0 u0) (liftS b1 d1 u1) (XQ.fin ay)
       = (XQ.fin (Kq u a b0 d0 b1 d1 ay), .IIB1) := by
   have hy1 : 0 < 1 - ay := sub_pos.mpr h.hy1; have hP0 := h.hP0
   have hb' : 0 < b0 - b1 := sub_pos.mpr hb
-  rw [Kq_IIB h.hy0 h.hy1 hb hd (by linarith [pyx_sub_rII (a := a) (ay := ay) h.c0.hs h.c1.hs])]
+  rw [Kq_IIB h.hy0 h.hy1 hb hd.le (by linarith [pyx_sub_rII (a := a) (ay := ay) h.c0.hs h.c1.hs])]
   unfold pyxq rII at hB
   unfold_deduceK
-  simp only [decide_eq_true hb, decide_eq_false (not_lt.mpr hd), decide_eq_true hB,
-    decide_eq_false (not_lt.mpr hP), if_true, XQ.lt_fin]
+  simp only [decide_eq_true hb, decide_eq_false (not_lt.mpr hd.le), decide_eq_true hB,
+    decide_eq_false (not_lt.mpr hP), decide_eq_false hb.ne', decide_eq_false hd.ne, Bool.or_self,
+    Bool.false_eq_true, if_false, if_true, XQ.lt_fin]
   rw [if_neg (by decide), XQ.div_fin _ _ (mul_ne_zero (mul_ne_zero hP0.ne' hy1.ne') hb'.ne')]
   have e := h.d_eq; subst e
   congr 2; field_simp; ring
 
-theorem deduceK_IIB2 (hb : b1 < b0) (hd : d0 ≤ d1) (hB : rII d0 b1 ay < pyxq a b0 u0 b1 u1 ay)
+theorem deduceK_IIB2 (hb : b1 < b0) (hd : d0 < d1) (hB : rII d0 b1 ay < pyxq a b0 u0 b1 u1 ay)
     (hP : a < b + a * u) :
     BOp.deduceK (liftB (f := f) b d u a) (liftS b0 d0 u0) (liftS b1 d1 u1) (XQ.fin ay)
       = (XQ.fin (Kq u a b0 d0 b1 d1 ay), .IIB2) := by
   have hy1 : 0 < 1 - ay := sub_pos.mpr h.hy1; have hP1 : 0 < 1 - (b + a * u) := sub_pos.mpr h.hP1
-  rw [Kq_IIB h.hy0 h.hy1 hb hd (by linarith [pyx_sub_rII (a := a) (ay := ay) h.c0.hs h.c1.hs])]
+  rw [Kq_IIB h.hy0 h.hy1 hb hd.le (by linarith [pyx_sub_rII (a := a) (ay := ay) h.c0.hs h.c1.hs])]
   unfold pyxq rII at hB
   unfold_deduceK
-  simp only [decide_eq_true hb, decide_eq_false (not_lt.mpr hd), decide_eq_true hB,
-    decide_eq_true hP, if_true, XQ.lt_fin]
+  simp only [decide_eq_true hb, decide_eq_false (not_lt.mpr hd.le), decide_eq_true hB,
+    decide_eq_true hP, decide_eq_false hb.ne', decide_eq_false hd.ne, Bool.or_self,
+    Bool.false_eq_true, if_false, if_true, XQ.lt_fin]
   rw [if_neg (by decide), XQ.div_fin _ _ (mul_ne_zero hP1.ne' hy1.ne')]
   have e := h.d_eq; subst e
   congr 2; field_simp; ring
 
-theorem deduceK_IIIA1 (hb : b0 ≤ b1) (hd : d1 < d0) (hA : pyxq a b0 u0 b1 u1 ay ≤ rIII b0 d1 ay)
+theorem deduceK_IIIA1 (hb : b0 < b1) (hd : d1 < d0) (hA : pyxq a b0 u0 b1 u1 ay ≤ rIII b0 d1 ay)
     (hP : b + a * u ≤ a) :
     BOp.deduceK (liftB (f := f) b d u a) (liftS b0 d0 u0) (liftS b1 d1 u1) (XQ.fin ay)
       = (XQ.fin (Kq u a b0 d0 b1 d1 ay), .IIIA1) := by
   have hy0 := h.hy0; have hP0 := h.hP0
   have hd' : 0 < d0 - d1 := sub_pos.mpr hd
-  rw [Kq_IIIA h.hy0 h.hy1 hb hd (by linarith [pyx_sub_rIII (a := a) (ay := ay) h.c0.hs h.c1.hs])]
+  rw [Kq_IIIA h.hy0 h.hy1 hb.le hd (by linarith [pyx_sub_rIII (a := a) (ay := ay) h.c0.hs h.c1.hs])]
   unfold pyxq rIII at hA
   unfold_deduceK
-  simp only [decide_eq_false (not_lt.mpr hb), decide_eq_true hd, decide_eq_false (not_lt.mpr hA),
-    decide_eq_false (not_lt.mpr hP), Bool.false_eq_true, if_false, XQ.lt_fin]
+  simp only [decide_eq_false (not_lt.mpr hb.le), decide_eq_true hd, decide_eq_false (not_lt.mpr hA),
+    decide_eq_false (not_lt.mpr hP), decide_eq_false hb.ne, decide_eq_false hd.ne', Bool.or_self,
+    Bool.false_eq_true, if_false, XQ.lt_fin]
   rw [if_neg (by decide), XQ.div_fin _ _ (mul_ne_zero (mul_ne_zero hP0.ne' hy0.ne') hd'.ne')]
   have e := h.d_eq; subst e
   congr 2; field_simp; ring
 
-theorem deduceK_IIIA2 (hb : b0 ≤ b1) (hd : d1 < d0) (hA : pyxq a b0 u0 b1 u1 ay ≤ rIII b0 d1 ay)
+theorem deduceK_IIIA2 (hb : b0 < b1) (hd : d1 < d0) (hA : pyxq a b0 u0 b1 u1 ay ≤ rIII b0 d1 ay)
     (hP : a < b + a * u) :
     BOp.deduceK (liftB (f := f) b d u a) (liftS b0 d0 u0) (liftS b1 d1 u1) (XQ.fin ay)
       = (XQ.fin (Kq u a b0 d0 b1 d1 ay), .IIIA2) := by
   have hy0 := h.hy0; have hP1 : 0 < 1 - (b + a * u) := sub_pos.mpr h.hP1
-  rw [Kq_IIIA h.hy0 h.hy1 hb hd (by linarith [pyx_sub_rIII (a := a) (ay := ay) h.c0.hs h.c1.hs])]
+  rw [Kq_IIIA h.hy0 h.hy1 hb.le hd (by linarith [pyx_sub_rIII (a := a) (ay := ay) h.c0.hs h.c1.hs])]
   unfold pyxq rIII at hA
   unfold_deduceK
-  simp only [decide_eq_false (not_lt.mpr hb), decide_eq_true hd, decide_eq_false (not_lt.mpr hA),
-    decide_eq_true hP, Bool.false_eq_true, if_false, XQ.lt_fin]
+  simp only [decide_eq_false (not_lt.mpr hb.le), decide_eq_true hd, decide_eq_false (not_lt.mpr hA),
+    decide_eq_true hP, decide_eq_false hb.ne, decide_eq_false hd.ne', Bool.or_self,
+    Bool.false_eq_true, if_false, XQ.lt_fin]
   rw [if_neg (by decide), XQ.div_fin _ _ (mul_ne_zero hP1.ne' hy0.ne')]
   have e := h.d_eq; subst e
   congr 2; field_simp; ring
@@ -401,11 +448,13 @@ theorem deduceK_IIIB1 (hb : b0 ≤ b1) (hd : d1 < d0) (hB : rIII b0 d1 ay < pyxq
     BOp.deduceK (liftB (f := f) b d u a) (liftS b0 d0 u0) (liftS b1 d1 u1) (XQ.fin ay)
       = (XQ.fin (Kq u a b0 d0 b1 d1 ay), .IIIB1) := by
   have hy1 : 0 < 1 - ay := sub_pos.mpr h.hy1; have hP0 := h.hP0
+  have hbs : b0 < b1 := h.IIIB_strict hd hB
   rw [Kq_IIIB h.hy0 h.hy1 hb hd (by linarith [pyx_sub_rIII (a := a) (ay := ay) h.c0.hs h.c1.hs])]
   unfold pyxq rIII at hB
   unfold_deduceK
   simp only [decide_eq_false (not_lt.mpr hb), decide_eq_true hd, decide_eq_true hB,
-    decide_eq_false (not_lt.mpr hP), Bool.false_eq_true, if_false, XQ.lt_fin]
+    decide_eq_false (not_lt.mpr hP), decide_eq_false hbs.ne, decide_eq_false hd.ne', Bool.or_self,
+    Bool.false_eq_true, if_false, XQ.lt_fin]
   rw [if_neg (by decide), XQ.div_fin _ _ (mul_ne_zero hP0.ne' hy1.ne')]
   have e := h.d_eq; subst e
   congr 2; field_simp; ring
@@ -415,30 +464,39 @@ theorem deduceK_IIIB2 (hb : b0 ≤ b1) (hd : d1 < d0) (hB : rIII b0 d1 ay < pyxq
     BOp.deduceK (liftB (f := f) b d u a) (liftS b0 d0 u0) (liftS b1 d1 u1) (XQ.fin ay)
       = (XQ.fin (Kq u a b0 d0 b1 d1 ay), .IIIB2) := by
   have hy1 : 0 < 1 - ay := sub_pos.mpr h.hy1; have hP1 : 0 < 1 - (b + a * u) := sub_pos.mpr h.hP1
-  have hb' : 0 < b1 - b0 := sub_pos.mpr (h.IIIB_strict hd hB)
+  have hbs : b0 < b1 := h.IIIB_strict hd hB
+  have hb' : 0 < b1 - b0 := sub_pos.mpr hbs
   rw [Kq_IIIB h.hy0 h.hy1 hb hd (by linarith [pyx_sub_rIII (a := a) (ay := ay) h.c0.hs h.c1.hs])]
   unfold pyxq rIII at hB
   unfold_deduceK
   simp only [decide_eq_false (not_lt.mpr hb), decide_eq_true hd, decide_eq_true hB,
-    decide_eq_true hP, Bool.false_eq_true, if_false, XQ.lt_fin]
+    decide_eq_true hP, decide_eq_false hbs.ne, decide_eq_false hd.ne', Bool.or_self,
+    Bool.false_eq_true, if_false, XQ.lt_fin]
   rw [if_neg (by decide), XQ.div_fin _ _ (mul_ne_zero (mul_ne_zero hP1.ne' hy1.ne') hb'.ne')]
   have e := h.d_eq; subst e
   congr 2; field_simp; ring
 
-/-- on the open domain `deduceK` returns the finite closed form `Kq` — in every branch -/
+/-- on the open domain `deduceK` returns the finite closed form `Kq` — in every branch (ten: Case I, the tie arm,
+    and the eight sub-cases of Case II / III) -/
 theorem deduceK_fst :
     (BOp.deduceK (liftB (f := f) b d u a) (liftS b0 d0 u0) (liftS b1 d1 u1) (XQ.fin ay)).1
       = XQ.fin (Kq u a b0 d0 b1 d1 ay) := by
   rcases case_split b0 d0 b1 d1 with hI | ⟨hb, hd⟩ | ⟨hb, hd⟩
   · rw [deduceK_I hI]
-  · by_cases hA : pyxq a b0 u0 b1 u1 ay ≤ rII d0 b1 ay <;> by_cases hP : b + a * u ≤ a
+  · rcases hd.eq_or_lt with ht | hds
+    · rw [deduceK_Tie h.x.ha0 h.hy0.le h.hy1.le
+        (fun hI => absurd (hI.mp hb) (not_lt.mpr hd)) (Or.inr ht)]
+    by_cases hA : pyxq a b0 u0 b1 u1 ay ≤ rII d0 b1 ay <;> by_cases hP : b + a * u ≤ a
     · rw [deduceK_IIA1 h hb hd hA hP]
     · rw [deduceK_IIA2 h hb hd hA (not_le.mp hP)]
-    · rw [deduceK_IIB1 h hb hd (not_le.mp hA) hP]
-    · rw [deduceK_IIB2 h hb hd (not_le.mp hA) (not_le.mp hP)]
-  · by_cases hA : pyxq a b0 u0 b1 u1 ay ≤ rIII b0 d1 ay <;> by_cases hP : b + a * u ≤ a
-    · rw [deduceK_IIIA1 h hb hd hA hP]
-    · rw [deduceK_IIIA2 h hb hd hA (not_le.mp hP)]
+    · rw [deduceK_IIB1 h hb hds (not_le.mp hA) hP]
+    · rw [deduceK_IIB2 h hb hds (not_le.mp hA) (not_le.mp hP)]
+  · rcases hb.eq_or_lt with ht | hbs
+    · rw [deduceK_Tie h.x.ha0 h.hy0.le h.hy1.le
+        (fun hI => absurd (hI.mpr hd) (not_lt.mpr hb)) (Or.inl ht)]
+    by_cases hA : pyxq a b0 u0 b1 u1 ay ≤ rIII b0 d1 ay <;> by_cases hP : b + a * u ≤ a
+    · rw [deduceK_IIIA1 h hbs hd hA hP]
+    · rw [deduceK_IIIA2 h hbs hd hA (not_le.mp hP)]
     · rw [deduceK_IIIB1 h hb hd (not_le.mp hA) hP]
     · rw [deduceK_IIIB2 h hb hd (not_le.mp hA) (not_le.mp hP)]
 
